@@ -32,6 +32,15 @@ CHECKS["C11"] = dict(
     note="Trusted: TLC, renderer, harness projection. The general value itself is C02's subject.",
     technique="TLA+ executable semantics + conversion operators (TLC) validating recorded results of all six entry points")
 
+CHECKS["C09"] = dict(
+    category="model_checking", design_ref="DESIGN.md §5 C09",
+    text="XPathSem!Matches is the XSLT 5.2 definition itself (exists an ancestor-or-self from which the pattern, evaluated as an expression, selects the node). "
+         "Systematic and seeded random patterns ('/', '//', positional/boolean/nested predicates, every node test, id() heads, unions) are compiled with "
+         "initMatchPattern and XPath::getMatchScore is asked for EVERY node of each document; TLC recomputes the match set from the definition and compares the sets.",
+    note="Trusted: TLC, renderer, node-id projection. Known deviations of Xalan's right-to-left matcher are attributed by syntactic feature + error direction "
+         "(see known_findings.jsonl); stylesheet-level uses of patterns are exercised in C10/C15/C17.",
+    technique="TLA+ definition of pattern matching evaluated by TLC; trace validation of getMatchScore over all nodes")
+
 NOT_YET = {
 }
 
